@@ -12,6 +12,12 @@ model's A - sigma B), re-checks the oracle contract A q = lambda M q on the raw 
 post-processing model (sorting function, normalisation loop) on it and compares with the module output at 1e-9.
 The implementation-side oracle states the property itself on the module output (residual, q^T B q = 1, order, sign,
 completeness of the dense spectrum, "nmodes closest to sigma" against an independent dense spectrum).
+Tie (T): tools/gen_C11.py regenerates the state machine of EigenSolve._sparse_eigs (defaults, the "no shift" test, B = I,
+solver creation, forced refactorisation, update, what is passed to ARPACK) from the source; coq/bridge/C11/
+SparseEigsBridge.v proves Model/Eig.v (sparse_eigs) equal to it: the test is the EXACT `sigma == 0`.
+Scale: a deterministic plan (gen_scaled_specs, every run) puts sparse, FE and dense pencils on other scales (eigenvalues of
+order 1e-9 .. 1e9, shifts scaled alike, tiny non-zero shifts of both signs, also on pencils of order 1); for these every
+tolerance -- Coq side and oracle (residual, "closest to the shift") -- is RELATIVE to the scale of the compared quantity.
 """
 import os, json, glob, contextlib, math
 from fractions import Fraction
@@ -129,6 +135,10 @@ def dec_mat(pym, d):
         x = np.array(f['x'], dtype=float)
         sx = pym.Signal('x', x)
         t = f['type']
+        if t == 'Kfree':        # unconstrained (free-floating) structure: singular stiffness matrix, three rigid-body modes
+            m = pym.AssembleStiffness(sx, domain=dom)
+            m.response()
+            return m.sig_out[0].state * f.get('scale', 1.0)
         if t in ('K', 'M'):
             bc = (dom.nodes[0, :] * 2 + np.arange(2)[None]).flatten()
         else:
@@ -145,7 +155,7 @@ def dec_mat(pym, d):
         else:
             raise ValueError(t)
         m.response()
-        return m.sig_out[0].state
+        return m.sig_out[0].state * f['scale'] if 'scale' in f else m.sig_out[0].state   # physical units of the FE model
     a = np.array(d['data'], dtype=float)
     if d['complex']:
         a = a[..., 0] + 1j * a[..., 1]
@@ -267,10 +277,16 @@ class Emit:
         return 'None' if M is None else f'(Some {self.mat(M)})'
 
 
-def tol_lit(scale, rel):
-    """rel * max(1, scale) as an exact literal"""
-    s = max(1.0, float(scale))
-    return qlit(Fraction(int(math.ceil(s * 1000)), 1000) * Fraction(rel).limit_denominator(10 ** 12))
+def tol_lit(scale, rel, floor=1.0):
+    """rel * max(floor, scale) as an exact literal; floor = 1 unless the pencil lives on another scale (spec['rel']):
+    then the tolerance is RELATIVE to the scale of the compared quantity (mantissa rounded up to 10 bits)"""
+    s = max(floor, float(scale))
+    if floor >= 1.0:
+        return qlit(Fraction(int(math.ceil(s * 1000)), 1000) * Fraction(rel).limit_denominator(10 ** 12))
+    if not s > 0:
+        s = 1e-300
+    m, e = math.frexp(s)
+    return qlit(Fraction(int(math.ceil(m * 1024)), 1024) * Fraction(2) ** e * Fraction(rel).limit_denominator(10 ** 12))
 
 
 def coq_sort(s, ops, em):
@@ -389,6 +405,7 @@ def emit_case(spec, obs):
         cplx = True
     em = Emit(cplx)
     ops = 'opsQC' if cplx else 'opsQ'
+    floor = 0.0 if spec.get('rel') else 1.0      # scaled pencils: every tolerance relative to the compared quantity
 
     def optk(v):
         if v is None:
@@ -425,7 +442,7 @@ def emit_case(spec, obs):
             b, x = an['probe']
             sg = an['sigma'] if an['sigma'] is not None else 0.0
             probe = f'(Some ({em.vec(b)}, {em.vec(x)}))'
-            tP = tol_lit((nA + abs(sg) * nB) * max(np.abs(x).max(), 1.0), 1e-9)
+            tP = tol_lit((nA + abs(sg) * nB) * max(np.abs(x).max(), floor), 1e-9, floor)
         else:
             probe, tP = 'None', '0'
         if level == 1:
@@ -444,7 +461,7 @@ def emit_case(spec, obs):
                 strict_l = an['strict']
                 if raww is None:        # no library call and an exception: the model must predict the exception
                     raww, rawq = np.zeros(0), np.zeros((todense(A).shape[0], 0))
-            scC = max([1.0] + [(nA + abs(w_[i]) * nB) * np.abs(q_[:, i]).max()
+            scC = max([floor] + [(nA + abs(w_[i]) * nB) * np.abs(q_[:, i]).max()
                                for w_, q_ in [(raww, rawq)] + [(w, q) for _, w, q in an['alt']] for i in range(len(w_))])
             rawW, rawQ = em.vec(raww), em.mat(rawq)
             if isinstance(out, str):
@@ -452,10 +469,10 @@ def emit_case(spec, obs):
                 tW = tQ = '0'
             else:
                 outl = f'(Ok ({em.vec(out[0])}, {em.mat(out[1])}))'
-                tW = tol_lit(np.abs(out[0]).max() if out[0].size else 1.0, 1e-9)
-                tQ = tol_lit((np.abs(out[1]).max() if out[1].size else 1.0) * max(1.0, min(an['kappa'], 1e6) / 10), 1e-9)
+                tW = tol_lit(np.abs(out[0]).max() if out[0].size else 1.0, 1e-9, floor)
+                tQ = tol_lit((np.abs(out[1]).max() if out[1].size else 1.0) * max(1.0, min(an['kappa'], 1e6) / 10), 1e-9, floor)
             strict = '[' + '; '.join(vlib.blit(b) for b in strict_l) + ']'
-            tC = tol_lit(scC, 1e-8)
+            tC = tol_lit(scC, 1e-8, floor)
         alt = '[' + '; '.join(f'({nm}, ({em.vec(w)}, {em.mat(q)}))' for nm, w, q in an['alt']) + ']' if level == 2 else '[]'
         obs_l = (f"(Build_obs {level}%nat {fun} {ok_} {osig} {omode} {an['M']} {probe} {rawW} {rawQ} {alt} {outl} "
                  f"{strict} {tC} {tW} {tQ} {tP})")
@@ -483,10 +500,12 @@ def finite_spectrum(rec, A, B):
     if B is None:
         return np.linalg.eigvals(Ad)
     Bd = todense(B)
-    w = rec.orig['eig'](Ad, Bd, right=False, homogeneous_eigvals=True)
+    # both matrices brought to unit scale first: "infinite" is judged on alpha / beta of the normalised pencil
+    a, b = float(np.abs(Ad).max()) or 1.0, float(np.abs(Bd).max()) or 1.0
+    w = rec.orig['eig'](Ad / a, Bd / b, right=False, homogeneous_eigvals=True)
     al, be = w[0], w[1]
     keep = np.abs(be) > 1e-9 * np.maximum(np.abs(al), 1e-300)
-    return al[keep] / be[keep]
+    return (al[keep] / be[keep]) * (a / b)
 
 
 def match_multiset(a, b, tol):
@@ -524,11 +543,12 @@ def oracle_call(ctx, rec, spec, o, ob, sigma_now, nmodes_now):
         bad('shapes of W and Q', [n, W.size], list(Q.shape), cls)
         return
     kap = ob['an']['kappa']
+    floor = 0.0 if spec.get('rel') else 1.0      # scaled pencils: residual and selection RELATIVE to the pencil's scale
     for i in range(W.size):
         q = Q[:, i]
         Bq = q if Bd is None else Bd @ q
         res = np.abs(Ad @ q - W[i] * Bq).max()
-        sc = max(1.0, (nA + abs(W[i]) * nB) * np.abs(q).max())
+        sc = max(floor, (nA + abs(W[i]) * nB) * np.abs(q).max())
         if not res <= 1e-8 * sc:
             bad('A q_i = lambda_i B q_i', 0.0, float(res), cls)
             return
@@ -552,7 +572,7 @@ def oracle_call(ctx, rec, spec, o, ob, sigma_now, nmodes_now):
             bad('ordered by the sorting function', 'ascending keys', [repr(k) for k in keys], cls + '-sort-' + spec['sort'][0])
     # completeness / selection against an independent spectrum
     full = finite_spectrum(rec, A, B)
-    sc = max(1.0, np.abs(full).max() if full.size else 1.0)
+    sc = max(floor, np.abs(full).max() if full.size else 1.0)
     if not sparse:
         if spec['sort'][0] in ('default', 'desc', 'rev', 'abs', 'dist', 'row0'):
             if W.size != n or not match_multiset(W, full, 1e-6 * sc) or full.size != n:
@@ -566,6 +586,8 @@ def oracle_call(ctx, rec, spec, o, ob, sigma_now, nmodes_now):
             d = np.abs(full - sg)
             idx = np.argsort(d)
             want = full[idx[:k]]
+            if floor == 0.0:     # the scale of the values that are compared: the selected eigenvalues and the shift
+                sc = max(np.abs(want).max() if want.size else 0.0, abs(sg), 1e-300)
             gap_ok = full.size <= k or d[idx[k]] - d[idx[k - 1]] > 1e-6 * sc
             if W.size != k:
                 bad('sparse path returns the requested number of modes', k, int(W.size), cls)
@@ -743,17 +765,23 @@ def gen_dense_spec(rec, rng, nmax, idx):
     return None
 
 
-def pick_sigma(rng, w, k, allow_none=True, cplx=False):
-    """a shift with a well defined set of k closest eigenvalues and a well conditioned A - sigma B"""
+def pick_sigma(rng, w, k, allow_none=True, cplx=False, nonzero=False, sign=0):
+    """a shift with a well defined set of k closest eigenvalues and a well conditioned A - sigma B
+    nonzero: never None / 0; sign < 0: a negative shift"""
     sc = max(1.0, np.abs(w).max())
     for _ in range(50):
         r = rng.random()
-        if allow_none and r < 0.2:
+        if allow_none and r < 0.2 and not nonzero:
             s, sv = None, 0.0
-        elif r < 0.35:
+        elif r < 0.35 and not nonzero:
             s = sv = 0.0
         else:
-            sv = float(np.round(rng.uniform(w.real.min() - 0.5, w.real.max() + 0.5), 3))
+            lo, hi = w.real.min() - 0.5, w.real.max() + 0.5
+            if sign < 0:
+                if lo > -0.02:
+                    return None, False
+                hi = min(hi, -0.01)
+            sv = float(np.round(rng.uniform(lo, hi), 3))
             s = sv
             if sv == 0.0:
                 continue
@@ -766,12 +794,14 @@ def pick_sigma(rng, w, k, allow_none=True, cplx=False):
     return None, False
 
 
-def gen_small_sparse_spec(rec, rng, idx, thorough):
+def gen_small_sparse_spec(rec, rng, idx, thorough, force_shift=False, want_gen=None, want_cls=None):
     for attempt in range(80):
         n = int(rng.integers(6, 13))
         cls = ['rsym', 'rsym', 'rgen', 'cherm', 'cgen', 'csym'][int(rng.integers(6))]
+        cls = want_cls or cls
         cplx = cls in ('cherm', 'cgen', 'csym')
         gen = rng.random() < 0.5
+        gen = gen if want_gen is None else want_gen
 
         def rnd():
             X = rng.normal(size=(n, n))
@@ -804,7 +834,7 @@ def gen_small_sparse_spec(rec, rng, idx, thorough):
         w = finite_spectrum(rec, A, B)
         nm = None if (n >= 9 and rng.random() < 0.15) else int(rng.integers(1, n - 2))
         k = 6 if nm is None else nm
-        sigma, ok = pick_sigma(rng, w, k)
+        sigma, ok = pick_sigma(rng, w, k, nonzero=force_shift)
         if not ok:
             continue
         sv = 0.0 if sigma is None else sigma
@@ -832,11 +862,12 @@ def gen_small_sparse_spec(rec, rng, idx, thorough):
     return None
 
 
-def gen_fe_spec(pym, rec, rng, idx):
+def gen_fe_spec(pym, rec, rng, idx, force_shift=False, sign=0, want_gen=None):
     for attempt in range(40):
         elastic = rng.random() < 0.5
         cplx = elastic and rng.random() < 0.35
         gen = rng.random() < 0.65
+        gen = gen if want_gen is None else want_gen
         if elastic:
             nx, ny = [(3, 3), (4, 3), (3, 4), (4, 2)][int(rng.integers(4))]
         else:
@@ -852,13 +883,13 @@ def gen_fe_spec(pym, rec, rng, idx):
         pens = [(fe(tA, x), fe(tB, x) if gen else None) for x in xs]
         mats = [(dec_mat(pym, a), dec_mat(pym, b)) for a, b in pens]
         ws = [finite_spectrum(rec, a, b) for a, b in mats]
-        sigma, ok = pick_sigma(rng, ws[0], k)
+        sigma, ok = pick_sigma(rng, ws[0], k, nonzero=force_shift, sign=sign)
         if not ok:
             continue
         ops, cur, good = [], sigma, True
         for c in range(ncalls):
             if c > 0 and rng.random() < 0.35:
-                s2, ok2 = pick_sigma(rng, ws[c], k, allow_none=False)
+                s2, ok2 = pick_sigma(rng, ws[c], k, allow_none=False, nonzero=force_shift, sign=sign)
                 if ok2:
                     ops.append(dict(op='sigma', value=s2))
                     cur = s2
@@ -884,6 +915,131 @@ def gen_fe_spec(pym, rec, rng, idx):
                     n=int(mats[0][0].shape[0]), kwargs=dict(hermitian=None, nmodes=nm, sigma=sigma, mode='normal'),
                     sort=['default'], ops=ops)
     return None
+
+
+# ---- pencils on other scales (physical units), shifts scaled alike; tiny non-zero shifts of both signs
+def _map_sigma(v, f):
+    if v is None:
+        return None
+    if isinstance(v, list):
+        z = f(complex(*v))
+        return [float(z.real), float(z.imag)]
+    return float(f(v))
+
+
+def transform_spec(pym, spec, a=1.0, b=1.0, c=0.0, tag=''):
+    """A' = a (A - c B), B' = b B (B = I when absent: then b must be 1): every eigenvalue becomes (a / b) (lambda - c),
+    so every shift (constructor argument, m.sigma assignments) and the target of a 'dist' sorting key are mapped alike.
+    The spectrum, the distances to the shift and the conditioning of A - sigma B keep their RELATIVE structure."""
+    import copy
+    sp = copy.deepcopy(spec_public(spec))
+    f = lambda v: (a / b) * (v - c)
+
+    def sc_mat(d, fac):
+        if d is None:
+            return None
+        if 'fe' in d:
+            d['fe']['scale'] = float(fac) * d['fe'].get('scale', 1.0)
+            return d
+        M = np.array(d['data'], dtype=float)
+        if d['complex']:
+            M = M[..., 0] + 1j * M[..., 1]
+        return enc_mat(M * fac, d['sparse'])
+    for o in sp['ops']:
+        if o['op'] == 'sigma':
+            o['value'] = _map_sigma(o['value'], f)
+            continue
+        if c != 0.0:
+            assert 'fe' not in o['A']
+            A, B = dec_mat(pym, o['A']), dec_mat(pym, o.get('B'))
+            Ad = todense(A) - c * (np.eye(A.shape[0]) if B is None else todense(B))
+            o['A'] = enc_mat(Ad, o['A']['sparse'])
+        o['A'] = sc_mat(o['A'], a)
+        if o.get('B') is not None:
+            o['B'] = sc_mat(o['B'], b)
+    sp['kwargs']['sigma'] = _map_sigma(sp['kwargs'].get('sigma'), f)
+    if sp['sort'][0] == 'dist':
+        sp['sort'] = ['dist', _map_sigma(sp['sort'][1], f)]
+    sp['name'] = spec['name'] + tag
+    sp['stream'] = 'scaled'
+    sp['rel'] = True
+    sp['scale'] = [float(a), float(b), float(c)]
+    return sp
+
+
+# (a, b): A scaled by a, B by b.  Entries of A stay >= 1e-4: matrices whose entries are all below the ABSOLUTE tolerance 1e-8
+# of the matrix predicates are classified diagonal / Hermitian whatever they are (known finding K06, C05).
+SCALES_GEN = [(1.0, 1e9), (1e-3, 1e6), (1e-3, 1e2), (2.0 ** -10, 2.0 ** 20), (1e-4, 1.0), (1e3, 1e-3), (1e9, 1.0), (1e6, 1e-3)]
+SCALES_STD = [(1e-4, 1.0), (1e-3, 1.0), (1e3, 1.0), (1e6, 1.0), (1e9, 1.0)]
+TINY = [1e-9, -1e-9, 5e-9, -2e-9, 1e-12, -1e-12, 1e-8, -1e-8, 9.9e-9, 1e-15, -4e-9, 2.5e-9]
+
+
+def gen_scaled_specs(pym, rec, rng, quick):
+    """deterministic plan, executed on every run (the matrices vary with the seed, the plan does not):
+    (1) small sparse pencils of every class, generalised, eigenvalues of order 1e-9 .. 1e9 (scale pairs SCALES_GEN), the
+        shift scaled alike -- non-zero and, for the pairs with a / b = 1e-9, of magnitude <= 1e-8 -- with both signs (the
+        pencil is translated by c = 2 sigma so that the same relative situation has a NEGATIVE shift);
+    (2) standard sparse pencils scaled by SCALES_STD;
+    (3) standard and generalised pencils of order 1 with a TINY non-zero shift of either sign (no eigenvalue near 0);
+    (4) FE pencils (stiffness / mass, Poisson / mass) in other units: K ~ 1e-3, M ~ 1e6 ... with shifts of both signs;
+        free-floating structures (K ~ 1e-6, singular) with sigma = -1e-9, -3e-9, 1e-9;
+    (5) dense pencils scaled by 1e-4 .. 1e9."""
+    out = []
+    reps = 1 if quick else 4
+    classes = ['rsym', 'cherm', 'rgen', 'cgen', 'csym', 'rsym', 'rsym', 'cherm']
+    i = 0
+    for _ in range(reps):
+        for j, (a, b) in enumerate(SCALES_GEN):
+            for neg in (False, True):
+                base = gen_small_sparse_spec(rec, rng, i, False, force_shift=True, want_gen=True, want_cls=classes[(j + neg) % len(classes)])
+                i += 1
+                if base is None:
+                    continue
+                c = 2.0 * base['kwargs']['sigma'] if neg and base['kwargs']['sigma'] > 0 else 0.0
+                if base['sort'][0] not in ('default', 'desc', 'rev'):
+                    base['sort'] = ['default']
+                out.append(transform_spec(pym, base, a, b, c, f'-x{a:g}/{b:g}' + ('-neg' if c else '')))
+        for j, (a, b) in enumerate(SCALES_STD):
+            base = gen_small_sparse_spec(rec, rng, i, False, force_shift=True, want_gen=False, want_cls=classes[j % len(classes)])
+            i += 1
+            if base is not None:
+                c = 2.0 * base['kwargs']['sigma'] if j % 2 and base['kwargs']['sigma'] > 0 else 0.0
+                out.append(transform_spec(pym, base, a, 1.0, c, f'-x{a:g}' + ('-neg' if c else '')))
+        # (3) order-1 pencils, tiny non-zero shift: the pencil is translated so that the picked shift lands on the tiny value
+        for j, t in enumerate(TINY):
+            base = gen_small_sparse_spec(rec, rng, i, False, force_shift=True, want_gen=bool(j % 2), want_cls=classes[j % len(classes)])
+            i += 1
+            if base is None or len([o for o in base['ops'] if o['op'] == 'sigma']):
+                continue
+            base['sort'] = ['default']
+            sp = transform_spec(pym, base, 1.0, 1.0, base['kwargs']['sigma'] - t, f'-tiny{t:g}')
+            sp['kwargs']['sigma'] = float(t)       # exactly the tiny value (not sigma - (sigma - t) in floating point)
+            sp['rel'] = False                      # a pencil of order 1: the usual tolerances
+            out.append(sp)
+    nfe = 6 if quick else 16
+    fe_scales = [(1e-3, 1e6), (1e-3, 1e6), (1.0, 1e9), (1e-4, 1e2), (1e6, 1e-3), (1e9, 1.0)]
+    for j in range(nfe):
+        a, b = fe_scales[j % len(fe_scales)]
+        base = gen_fe_spec(pym, rec, rng, 1000 + j, force_shift=True, sign=-1 if j % 2 else 0, want_gen=True)
+        if base is not None:
+            out.append(transform_spec(pym, base, a, b, 0.0, f'-x{a:g}/{b:g}'))
+    # (4b) free-floating structure (singular K, rigid-body eigenvalues 0 +- rounding) with the usual tiny shift of either sign
+    for j, (sg, (nx, ny)) in enumerate(zip([-1e-9, -3e-9, 1e-9], [(4, 3), (3, 3), (5, 3)])):
+        x = [float(v) for v in np.round(rng.uniform(0.15, 1.0, size=nx * ny), 3)]
+        out.append(dict(name=f'fe-free-floating-{j}', stream='scaled', cls='elastic-free-std', n=2 * (nx + 1) * (ny + 1), rel=True,
+                        kwargs=dict(hermitian=None, nmodes=5, sigma=sg, mode='normal'), sort=['default'],
+                        ops=[dict(op='call', A=dict(fe=dict(type='Kfree', nx=nx, ny=ny, x=x, cplx=False, scale=1e-6)), B=None)]))
+    # (5) dense pencils on other scales (complete spectrum, normalisation q^T B q = 1 with scaled B)
+    for j in range(8 if quick else 40):
+        base = gen_dense_spec(rec, rng, 6, 2000 + j)
+        if base is None:
+            continue
+        a, b = SCALES_GEN[j % len(SCALES_GEN)]
+        hasB = base['ops'][0].get('B') is not None
+        if base['sort'][0] not in ('default', 'desc', 'rev', 'abs', 'firstk', 'row0', 'const', 'dist'):
+            base['sort'] = ['default']
+        out.append(transform_spec(pym, base, a if hasB else SCALES_STD[j % len(SCALES_STD)][0], b if hasB else 1.0, 0.0, '-scaled'))
+    return out
 
 
 def gen_malformed_spec(rec, rng, idx):
@@ -940,7 +1096,13 @@ def run(ctx):
                 '(AssembleStiffness+AssembleMass, AssemblePoisson+AssembleMass, clamped edge, random densities, real and complex '
                 'modulus) with nmodes, sigma, 1-3 calls with changed matrices and m.sigma assignments; malformed stream (isotropic '
                 'vectors, indefinite B, index out of range, unsupported mode, wrong flag, class change, mixed storage). Spectra are '
-                'well separated by construction (rejection sampling). A case is non-trivial when n >= 2; distinct by content hash.')
+                'well separated by construction (rejection sampling). A case is non-trivial when n >= 2; distinct by content hash. '
+                'Stream "scaled" (deterministic plan, every run): small sparse pencils of every class, generalised (A, B scaled by '
+                '(1,1e9) (1e-3,1e6) (1e-3,1e2) (2^-10,2^20) (1e-4,1) (1e3,1e-3) (1e9,1) (1e6,1e-3): eigenvalues 1e-9 .. 1e9) and '
+                'standard (1e-4 .. 1e9), the shift scaled alike and non-zero, each once with a positive and once with a negative '
+                'shift (pencil translated by 2 sigma); pencils of order 1 with the tiny shifts +-1e-9, 5e-9, -2e-9, +-1e-12, +-1e-8, '
+                '9.9e-9, 1e-15, -4e-9, 2.5e-9; FE pencils in other units (K ~ 1e-3, M ~ 1e6, ...) with shifts of both signs; dense '
+                'pencils on other scales; tolerances relative to the scale of the compared quantity.')
     ctx.assumptions += [
         'eigenvalues (and the keys of the sorting function) are well separated in generated cases: ties make argsort and the '
         'eigenvectors non-unique, which the property does not specify',
@@ -951,6 +1113,9 @@ def run(ctx):
         'generalised sparse pencils with singular B (FE mass matrix with boundary rows) need more free dofs than ncv = max(2*nmodes+1, 20), '
         'otherwise ARPACK raises error -9999 (loud failure, not generated)',
         'sigma real; A - sigma B has condition number <= 1e5 in generated cases',
+        'scaled pencils (stream "scaled"): a (A - c B), b B from a generated pencil (A, B) of order 1, every shift mapped alike; '
+        'eigenvalues of order 1e-9 .. 1e9; the entries of A stay >= 1e-4: a matrix whose entries are all below the ABSOLUTE tolerance '
+        '1e-8 of matrix_is_diagonal / matrix_is_hermitian is classified diagonal / Hermitian whatever it is (known finding K06, C05)',
     ]
     ctx.trusted += [
         'Print Assumptions: theorems over the reals rely on the standard axioms of Coq.Reals (ClassicalDedekindReals.sig_forall_dec, '
@@ -966,6 +1131,22 @@ def run(ctx):
     vlib.audit(ctx)
     if not vlib.ensure_static(ctx):
         return
+    # ---- (T) the state machine of _sparse_eigs regenerated from the source: the "no shift" test must be the exact `== 0`
+    import gen_C11, py2coq
+    gen_ok, gerr = True, ''
+    try:
+        pgen = ctx.write_gen('SparseEigsGen.v', gen_C11.gen_sparse_eigs(vlib.REPO))
+        gen_ok, _, gerr = vlib.compile_file(ctx, pgen, 'gen:SparseEigsGen.v compiles', 'translator')
+    except py2coq.Unsupported as e:
+        ctx.obligation('gen:SparseEigsGen.v translation', 'translator', False, str(e))
+        gen_ok, gerr = False, str(e)
+    if gen_ok:
+        gen_ok, _, gerr = vlib.compile_file(ctx, os.path.join(ctx.bridge_dir, 'SparseEigsBridge.v'),
+                                            'bridge:SparseEigsBridge (regenerated state machine of _sparse_eigs = Model/Eig.v sparse_eigs; '
+                                            'a non-zero shift, however small, is factorised)', 'bridge')
+    if not gen_ok:
+        ctx.violation('proof', 'pymoto/modules/linalg.py:EigenSolve._sparse_eigs', 'generated state machine equals Model/Eig.v',
+                      'translator/bridge', dict(error=gerr[-3000:]), theorem='BridgeC11.SparseEigsBridge')
     vlib.check_props(ctx)
 
     rec = Recorder()
@@ -999,6 +1180,8 @@ def run(ctx):
             s = gen_malformed_spec(rec, rng, i)
             if s:
                 specs.append(s)
+        # own generator: the plan above does not disturb the streams of the other generators
+        specs += gen_scaled_specs(pym, rec, np.random.default_rng(ctx.seed + 7919), q)
 
     small, big = [], []      # (expr, spec)
     nval = 0
